@@ -540,10 +540,37 @@ def _contains(f, root, nid):
     return False
 
 
+def _call_sites(ctx):
+    """usr -> [(calling function, argument node ids)] over the library."""
+    out = {}
+    for g in ctx.lib_fns():
+        for i, n in g.all_nodes():
+            ce = n.get('callee')
+            if ce and ce.get('inrepo') and n['k'] in ('CallExpr', 'CXXMemberCallExpr'):
+                out.setdefault(ce.get('usr'), []).append((g, n.get('args', [])))
+    return out
+
+
+def _never_nan(g, nid):
+    n = g.nodes[g.strip_casts(nid)]
+    if n['k'] in ('FloatingLiteral', 'IntegerLiteral'):
+        return True
+    ce = n.get('callee') or {}
+    if n['k'] == 'CallExpr' and ce.get('name') in ('fmax', 'fmin') and not ce.get('inrepo') and len(n.get('args', [])) == 2:
+        for a in n['args']:
+            m = g.nodes[g.strip_casts(a)]
+            while m['k'] in ('CXXFunctionalCastExpr', 'CStyleCastExpr', 'CXXStaticCastExpr', 'ImplicitCastExpr', 'ParenExpr') and m['ch']:
+                m = g.nodes[g.strip_casts(m['ch'][0])]
+            if m['k'] in ('FloatingLiteral', 'IntegerLiteral'):
+                return True
+    return False
+
+
 def rule_X4(ctx, files=None):
     res = RuleResult('X4', 'NaN polarity: in ordinary (non-constructor) functions no throw guard is true '
                            'because an argument is NaN (guards are written so that NaNs succeed)')
     nthrow = 0
+    sites = None
     for f in scoped_fns(ctx, files):
         if f.is_ctor or f.is_dtor or f.q in T.VALIDATING_SETTERS:
             continue
@@ -551,6 +578,14 @@ def rule_X4(ctx, files=None):
         if not throws:
             continue
         fparams = [i for i, p in enumerate(f.params) if p.get('float') and p['pk'] in ('v', 'cr')]
+        if fparams and f.d.get('access') == 'private':
+            # a private member is reached only through the class's own calls: an argument position that every
+            # call site fills with fmax(c, x) / fmin(c, x) for a literal c (never NaN) or with a literal cannot be NaN
+            if sites is None:
+                sites = _call_sites(ctx)
+            cs = sites.get(f.usr, [])
+            if cs:
+                fparams = [pi for pi in fparams if not all(_never_nan(g, args[pi]) for g, args in cs if pi < len(args))]
         if not fparams:
             continue
         fl = ctx.flow(f)
